@@ -28,7 +28,9 @@ Pool == <<
   PF("m3", <<T("a", <<"r">>), X("t", <<"r">>)>>, <<>>),         \* 15 decoy: `define r` of another type first (D14)
   PF("m1", <<X("t", <<"r">>), X("t", <<"s">>)>>, <<>>),         \* 16 same type extended twice (syntax error)
   PF("",   <<X("t", <<"r">>)>>, <<>>),                          \* 17 extend in a model file (syntax error)
-  PF("m2", <<X("t", <<>>)>>, <<>>) >>                           \* 18 extension without relations
+  PF("m2", <<X("t", <<>>)>>, <<>>),                             \* 18 extension without relations
+  PF("m3", <<X("t", <<"R", "r">>)>>, <<"C", "c">>),             \* 19 names that differ only in case: several conflicts whose order
+  PF("m2", <<X("t", <<"r", "R", "s">>)>>, <<"c", "C">>) >>      \* 20 a case-blind sort leaves to map iteration
 
 K == Len(PoolSeq)
 RECURSIVE Pow(_, _)
